@@ -19,6 +19,9 @@ class App:
         return App(self.w, self.v[k])
 
 
+NONE_VALUE = 4999      # the number that stands for Python's None in the model's values
+
+
 def enc(v):
     if isinstance(v, App):
         return ["app", v.w, enc(v.v)]
@@ -26,6 +29,8 @@ def enc(v):
         return ["dict", [[int(k), enc(x)] for k, x in v.items()]]
     if isinstance(v, tuple) and v[0] == "raw":
         return ["raw", v[1]]
+    if v is None:
+        return ["raw", NONE_VALUE]      # the action leaf the generator made None: a value like any other
     return ["bad"]
 
 
@@ -243,7 +248,7 @@ def run_case(case, tmp):
     def action(a):
         if a[0] == "dict":
             return {str(k): action(v) for k, v in a[1]}
-        return ("raw", a[1])
+        return None if a[1] == NONE_VALUE else ("raw", a[1])
 
     if case.get("fixed_root"):
         # the other root class: the same composite with a pacing adjustor; it must be just as transparent
